@@ -1,18 +1,729 @@
-//! C06 — not built yet.
+//! C06 — upstream replies are filtered: only records relevant to the question
+//! are used or cached.
+//!
+//! (a) every reply built from subsets of an adversarial record menu (each
+//!     record in any section) is passed to the real
+//!     `validate_nameserver_response` (through the verif wrapper);
+//! (b) the same replies are served as one upstream reply of a full
+//!     `dns_resolver::resolve` (every exchange position, all candidate
+//!     orders), then cache and answer are inspected;
+//! (c) header variants: a reply with a header defect contributes nothing.
+
+use crate::c07::base_spec;
 use crate::common::*;
-use serde_json::Value;
+use crate::net::*;
+use crate::procpar::{self, JsonAcc};
+use crate::ugen::*;
+use crate::util::*;
+use bytes::Bytes;
+use dns_resolver::recursive::{verif_validate_nameserver_response, NameserverResponse};
+use dns_types::protocol::types::*;
+use serde_json::{json, Value};
+use std::collections::BTreeSet;
+use std::sync::Arc;
 
-pub fn run(_ctx: &Ctx) -> i32 {
-    eprintln!("C06: check not built");
-    2
+type Key = (DomainName, RecordTypeWithData);
+
+fn key(r: &ResourceRecord) -> Key {
+    (r.name.clone(), r.rtype_with_data.clone())
 }
 
-pub fn replay(_ctx: &Ctx, _v: &Value) -> i32 {
-    eprintln!("C06: check not built");
-    2
+/// The question name used throughout: `www.z.t.` (leaf of a depth-2 chain).
+fn qname() -> DomainName {
+    dn("www.z.t.")
 }
 
-/// Entry point for `vcheck worker C06 <args...>` (child-process mode).
-pub fn worker(_args: &[String]) -> i32 {
-    2
+const QTYPES: [QueryType; 6] = [
+    QueryType::Record(RecordType::A),
+    QueryType::Record(RecordType::AAAA),
+    QueryType::Record(RecordType::TXT),
+    QueryType::Record(RecordType::NS),
+    QueryType::Record(RecordType::CNAME),
+    QueryType::Wildcard,
+];
+
+/// The adversarial record menu.
+pub fn menu() -> Vec<(&'static str, ResourceRecord)> {
+    let q = qname();
+    let unknown = match RecordType::from(999) {
+        RecordType::Unknown(tag) => RecordTypeWithData::Unknown {
+            tag,
+            octets: Bytes::from_static(b"zz"),
+        },
+        _ => unreachable!(),
+    };
+    vec![
+        ("answer A at q", rr(&q, a([10, 7, 0, 1]), 300)),
+        ("on-path CNAME q -> cdn.z.t.", rr(&q, cname(&dn("cdn.z.t.")), 300)),
+        ("A at the CNAME target", rr(&dn("cdn.z.t."), a([10, 7, 0, 2]), 300)),
+        ("off-path CNAME victim.bank. -> evil.attacker.", rr(&dn("victim.bank."), cname(&dn("evil.attacker.")), 300)),
+        ("A at the off-path target", rr(&dn("evil.attacker."), a([6, 6, 6, 6]), 300)),
+        ("TXT at q", rr(&q, txt(b"x"), 300)),
+        ("unknown type at q", rr(&q, unknown, 300)),
+        ("NS owned by z.t. (ancestor, 3 labels)", rr(&dn("z.t."), ns(&dn("evilns.z.t.")), 300)),
+        ("NS owned by t. (ancestor, 2 labels)", rr(&dn("t."), ns(&dn("ns.evil-t.")), 300)),
+        ("NS owned by the root", rr(&DomainName::root_domain(), ns(&dn("ns.evil-root.")), 300)),
+        ("NS owned by q itself", rr(&q, ns(&dn("ns.evil-q.")), 300)),
+        ("NS owned by bank. naming the same host as the z.t. NS", rr(&dn("bank."), ns(&dn("evilns.z.t.")), 300)),
+        ("NS owned by bank. naming another host", rr(&dn("bank."), ns(&dn("ns.evil.")), 300)),
+        ("A for the host named by the z.t. NS", rr(&dn("evilns.z.t."), a([6, 6, 6, 53]), 300)),
+        ("AAAA for the host named by the z.t. NS", rr(&dn("evilns.z.t."), aaaa(0x53), 300)),
+        ("A for a host only named by the foreign NS", rr(&dn("ns.evil."), a([6, 6, 6, 7]), 300)),
+        ("SOA of z.t.", rr(&dn("z.t."), soa_data(&dn("mname.z.t."), 9, 60), 60)),
+        ("SOA of bank.", rr(&dn("bank."), soa_data(&dn("mname.bank."), 9, 60), 60)),
+    ]
+}
+
+#[derive(Debug, Default)]
+pub struct Allowed {
+    pub rrs: BTreeSet<Key>,
+    pub soa: BTreeSet<Key>,
+    pub hosts: BTreeSet<DomainName>,
+    pub cuts: BTreeSet<DomainName>,
+}
+
+/// What the statement allows the resolver to use from one accepted reply.
+pub fn allowed(q: &Question, reply: &Message, match_count: usize) -> Allowed {
+    let mut al = Allowed::default();
+    // the alias path from the question name through the answer section
+    let mut path = vec![q.name.clone()];
+    loop {
+        let last = path.last().unwrap().clone();
+        let next = reply.answers.iter().find_map(|r| match &r.rtype_with_data {
+            RecordTypeWithData::CNAME { cname } if r.name == last => Some((r, cname.clone())),
+            _ => None,
+        });
+        match next {
+            Some((r, target)) => {
+                // every CNAME owned by a name on the path is "on that path"
+                // (several CNAMEs at one owner: all of them)
+                for r2 in reply.answers.iter().filter(|x| x.name == last && x.rtype_with_data.rtype() == RecordType::CNAME) {
+                    al.rrs.insert(key(r2));
+                }
+                let _ = r;
+                if path.contains(&target) {
+                    break;
+                }
+                path.push(target);
+            }
+            None => break,
+        }
+    }
+    let last = path.last().unwrap().clone();
+    let all_sections = || {
+        reply
+            .answers
+            .iter()
+            .chain(reply.authority.iter())
+            .chain(reply.additional.iter())
+    };
+    let mut has_answer = false;
+    for r in all_sections() {
+        if r.is_unknown() {
+            continue;
+        }
+        let on_final = r.name == last;
+        let lenient = matches!(q.qtype, QueryType::Wildcard | QueryType::Record(RecordType::CNAME))
+            && path.contains(&r.name);
+        if (on_final || lenient) && r.rtype_with_data.matches(q.qtype) && r.rclass.matches(q.qclass) {
+            al.rrs.insert(key(r));
+        }
+    }
+    // a negative reply is one whose *answer section* holds nothing for the question
+    for r in &reply.answers {
+        if al.rrs.contains(&key(r)) && !r.is_unknown() {
+            let on_path = path.contains(&r.name);
+            if on_path && (r.rtype_with_data.matches(q.qtype) || r.rtype_with_data.rtype() == RecordType::CNAME) {
+                has_answer = true;
+            }
+        }
+    }
+    if path.len() > 1 {
+        has_answer = true;
+    }
+    for r in all_sections() {
+        if let RecordTypeWithData::NS { nsdname } = &r.rtype_with_data {
+            if q.name.is_subdomain_of(&r.name) && r.name.labels.len() > match_count {
+                al.rrs.insert(key(r));
+                al.hosts.insert(nsdname.clone());
+                al.cuts.insert(r.name.clone());
+            }
+        }
+    }
+    for r in all_sections() {
+        if matches!(
+            r.rtype_with_data,
+            RecordTypeWithData::A { .. } | RecordTypeWithData::AAAA { .. }
+        ) && al.hosts.contains(&r.name)
+        {
+            al.rrs.insert(key(r));
+        }
+    }
+    if !has_answer {
+        for r in &reply.authority {
+            if r.rtype_with_data.rtype() == RecordType::SOA
+                && q.name.is_subdomain_of(&r.name)
+                && r.name.labels.len() >= match_count
+            {
+                al.soa.insert(key(r));
+            }
+        }
+    }
+    al
+}
+
+fn build_reply(q: &Question, placed: &[(usize, u8)], menu: &[(&'static str, ResourceRecord)]) -> Message {
+    let req = Message::from_question(0x4242, q.clone());
+    let mut m = req.make_response();
+    m.header.recursion_available = false;
+    m.header.is_authoritative = true;
+    for (i, sec) in placed {
+        let r = menu[*i].1.clone();
+        match sec {
+            0 => m.answers.push(r),
+            1 => m.authority.push(r),
+            _ => m.additional.push(r),
+        }
+    }
+    m
+}
+
+fn show_placed(placed: &[(usize, u8)], menu: &[(&'static str, ResourceRecord)]) -> Vec<String> {
+    placed
+        .iter()
+        .map(|(i, s)| {
+            format!(
+                "[{}] {}",
+                ["answer", "authority", "additional"][*s as usize],
+                menu[*i].0
+            )
+        })
+        .collect()
+}
+
+fn placed_json(placed: &[(usize, u8)]) -> Value {
+    json!(placed.iter().map(|(i, s)| json!([i, s])).collect::<Vec<_>>())
+}
+
+fn placed_from_json(v: &Value) -> Vec<(usize, u8)> {
+    v.as_array()
+        .map(|a| {
+            a.iter()
+                .filter_map(|p| Some((p[0].as_u64()? as usize, p[1].as_u64()? as u8)))
+                .collect()
+        })
+        .unwrap_or_default()
+}
+
+/// All placements (subset of <= k menu records, each in one of 3 sections)
+/// whose smallest record index is `first` (or the empty placement for None).
+fn placements(first: Option<usize>, n: usize, k: usize) -> Vec<Vec<(usize, u8)>> {
+    fn rec(start: usize, n: usize, left: usize, cur: &mut Vec<(usize, u8)>, out: &mut Vec<Vec<(usize, u8)>>) {
+        out.push(cur.clone());
+        if left == 0 {
+            return;
+        }
+        for i in start..n {
+            for s in 0..3u8 {
+                cur.push((i, s));
+                rec(i + 1, n, left - 1, cur, out);
+                cur.pop();
+            }
+        }
+    }
+    let mut out = Vec::new();
+    match first {
+        None => out.push(Vec::new()),
+        Some(f) => {
+            for s in 0..3u8 {
+                let mut cur = vec![(f, s)];
+                rec(f + 1, n, k - 1, &mut cur, &mut out);
+            }
+        }
+    }
+    out
+}
+
+// ---------------------------------------------------------------------------
+// (a) direct calls
+// ---------------------------------------------------------------------------
+
+fn judge_validated(q: &Question, reply: &Message, mc: usize, got: &Option<NameserverResponse>) -> Vec<(&'static str, String)> {
+    let al = allowed(q, reply, mc);
+    let mut out = Vec::new();
+    let (rrs, soa, deleg): (Vec<ResourceRecord>, Option<ResourceRecord>, Option<(DomainName, Vec<DomainName>)>) = match got {
+        None => return out,
+        Some(NameserverResponse::Answer { rrs, soa_rr }) => (rrs.clone(), soa_rr.clone(), None),
+        Some(NameserverResponse::CNAME { rrs, .. }) => (rrs.clone(), None, None),
+        Some(NameserverResponse::Delegation { rrs, delegation }) => (
+            rrs.clone(),
+            None,
+            Some((delegation.name.clone(), delegation.hostnames.clone())),
+        ),
+    };
+    for r in &rrs {
+        if !al.rrs.contains(&key(r)) {
+            let clause = match &r.rtype_with_data {
+                RecordTypeWithData::CNAME { .. } => "off-path-cname-accepted",
+                RecordTypeWithData::NS { .. } => {
+                    if !q.name.is_subdomain_of(&r.name) {
+                        "ns-with-foreign-owner-accepted"
+                    } else {
+                        "ns-not-deeper-accepted"
+                    }
+                }
+                RecordTypeWithData::A { .. } | RecordTypeWithData::AAAA { .. } => "address-for-unnamed-host-accepted",
+                _ => "irrelevant-record-accepted",
+            };
+            out.push((clause, format!("validated response uses {}", show_rr(r))));
+        }
+    }
+    if let Some(s) = &soa {
+        if !al.soa.contains(&key(s)) {
+            out.push(("soa-not-allowed", format!("validated response carries SOA {}", show_rr(s))));
+        }
+    }
+    if let Some((name, hosts)) = &deleg {
+        if !al.cuts.contains(name) {
+            out.push(("delegation-to-disallowed-cut", format!("delegation to {}", show_name(name))));
+        }
+        for h in hosts {
+            if !al.hosts.contains(h) {
+                out.push(("delegation-to-unnamed-host", format!("delegation names host {}", show_name(h))));
+            }
+        }
+    }
+    out
+}
+
+fn run_direct(acc: &mut JsonAcc, qi: usize, mc: usize, first: Option<usize>, k: usize) {
+    let menu = menu();
+    let q = question(&qname(), QTYPES[qi]);
+    for placed in placements(first, menu.len(), k) {
+        let reply = build_reply(&q, &placed, &menu);
+        let got = std::panic::catch_unwind(|| verif_validate_nameserver_response(&q, &reply, mc));
+        acc.count("direct_calls", 1);
+        let got = match got {
+            Ok(g) => g,
+            Err(_) => {
+                acc.violate(
+                    "panic",
+                    format!("validate_nameserver_response panicked on {:?}", show_placed(&placed, &menu)),
+                    json!({"kind": "direct", "qtype": u16::from(q.qtype), "match_count": mc, "placed": placed_json(&placed)}),
+                    None,
+                );
+                continue;
+            }
+        };
+        acc.hist(
+            match &got {
+                None => "direct: rejected",
+                Some(NameserverResponse::Answer { rrs, .. }) if rrs.is_empty() => "direct: negative answer",
+                Some(NameserverResponse::Answer { .. }) => "direct: answer",
+                Some(NameserverResponse::CNAME { .. }) => "direct: cname",
+                Some(NameserverResponse::Delegation { .. }) => "direct: delegation",
+            },
+            1,
+        );
+        if got.is_some() && placed.len() >= 2 {
+            acc.count("nontrivial", 1);
+        }
+        for (clause, msg) in judge_validated(&q, &reply, mc, &got) {
+            acc.violate(
+                clause,
+                format!(
+                    "question {} {} delegation depth {} reply {:?}: {}",
+                    show_name(&q.name),
+                    q.qtype,
+                    mc,
+                    show_placed(&placed, &menu),
+                    msg
+                ),
+                json!({"kind": "direct", "qtype": u16::from(q.qtype), "match_count": mc, "placed": placed_json(&placed)}),
+                None,
+            );
+        }
+    }
+}
+
+// ---------------------------------------------------------------------------
+// (b) through resolve()
+// ---------------------------------------------------------------------------
+
+fn universe() -> (GenParams, Arc<Universe>) {
+    let p = GenParams::simple(2, NsStyle::InZoneGlue, 1);
+    let u = Arc::new(build(&p));
+    (p, u)
+}
+
+/// Union of what all replies of a run allow.
+fn allowed_of_run(u: &Universe, res: &RunResult) -> Allowed {
+    let mut al = Allowed::default();
+    for (name, addrs) in &u.hints {
+        al.rrs.insert((DomainName::root_domain(), ns(name)));
+        for a in addrs {
+            al.rrs.insert((
+                name.clone(),
+                match a {
+                    std::net::IpAddr::V4(v) => RecordTypeWithData::A { address: *v },
+                    std::net::IpAddr::V6(v) => RecordTypeWithData::AAAA { address: *v },
+                },
+            ));
+        }
+    }
+    for e in &res.log {
+        if let (Some(q), Some(m)) = (&e.question, &e.sent_msg) {
+            let one = allowed(q, m, e.server_depth.max(1));
+            al.rrs.extend(one.rrs);
+            al.soa.extend(one.soa);
+        }
+    }
+    al
+}
+
+fn judge_run(u: &Universe, res: &RunResult) -> Vec<(&'static str, String)> {
+    let mut out = Vec::new();
+    let al = allowed_of_run(u, res);
+    for ask in &res.asks {
+        for r in &ask.cache_after {
+            if !al.rrs.contains(&key(r)) {
+                let clause = match &r.rtype_with_data {
+                    RecordTypeWithData::CNAME { .. } => "cached-off-path-cname",
+                    RecordTypeWithData::NS { .. } => "cached-disallowed-ns",
+                    RecordTypeWithData::SOA { .. } => "cached-soa",
+                    RecordTypeWithData::A { .. } | RecordTypeWithData::AAAA { .. } => "cached-unrelated-address",
+                    _ => "cached-irrelevant-record",
+                };
+                out.push((clause, format!("the cache holds {}", show_rr(r))));
+            }
+        }
+        match &ask.outcome {
+            Outcome::Ok(r) => {
+                for x in r.clone().rrs() {
+                    if !al.rrs.contains(&key(&x)) {
+                        out.push(("answer-uses-disallowed-record", format!("the answer contains {}", show_rr(&x))));
+                    }
+                }
+                if let Some(s) = r.soa_rr() {
+                    if !al.soa.contains(&key(s)) && !al.rrs.contains(&key(s)) {
+                        out.push(("answer-soa-not-allowed", format!("the answer carries SOA {}", show_rr(s))));
+                    }
+                }
+            }
+            Outcome::Panic(m) => out.push(("panic", format!("panicked: {m}"))),
+            Outcome::Err(_) => {}
+        }
+    }
+    out
+}
+
+fn run_resolve(acc: &mut JsonAcc, qi: usize, first: Option<usize>, k: usize) {
+    let menu = menu();
+    let (_p, u) = universe();
+    let q = question(&qname(), QTYPES[qi]);
+    for placed in placements(first, menu.len(), k) {
+        let reply = build_reply(&q, &placed, &menu);
+        let mut spec = base_spec(u.clone(), vec![Step::Ask(q.clone())]);
+        spec.faults = vec![Fault::Honest, Fault::Substitute(Box::new(reply))];
+        spec.fault_window = 8;
+        let mut stats = ExploreStats::default();
+        let replay = |choices: &[usize]| json!({"kind": "resolve", "qtype": u16::from(q.qtype), "placed": placed_json(&placed), "choices": choices});
+        if acc.trace {
+            let pj = placed_json(&placed);
+            let qt = u16::from(q.qtype);
+            stats.pre = Some(Box::new(move |prefix: &[usize]| {
+                println!("EXEC {}", json!({"kind": "resolve", "qtype": qt, "placed": pj, "choices": prefix}));
+                use std::io::Write;
+                let _ = std::io::stdout().flush();
+            }));
+        }
+        let mut visit = |res: &RunResult, choices: &[usize]| {
+            let substituted = res.log.iter().any(|e| matches!(e.fault, Fault::Substitute(_)));
+            if substituted {
+                acc.count("nontrivial", 1);
+            }
+            acc.hist(
+                match &res.asks[0].outcome {
+                    Outcome::Ok(_) => "resolve: answered",
+                    Outcome::Err(_) => "resolve: error",
+                    Outcome::Panic(_) => "resolve: panic",
+                },
+                1,
+            );
+            for (clause, msg) in judge_run(&u, res) {
+                acc.violate(
+                    clause,
+                    format!(
+                        "question {} {} with substituted reply {:?}: {} :: log {}",
+                        show_name(&q.name),
+                        q.qtype,
+                        show_placed(&placed, &menu),
+                        msg,
+                        show_log(&res.log)
+                    ),
+                    replay(choices),
+                    None,
+                );
+            }
+            acc.states.insert(fnv64(
+                format!("{}|{:?}", show_outcome(&res.asks[0].outcome), canon_rrs_nottl(&res.asks[0].cache_after)).as_bytes(),
+            ));
+            if substituted && placed.len() >= 2 {
+                acc.sample(json!({
+                    "question": format!("{} {}", show_name(&q.name), q.qtype),
+                    "substituted_reply": show_placed(&placed, &menu),
+                    "exchanges": show_log(&res.log),
+                    "outcome": show_outcome(&res.asks[0].outcome),
+                    "cache": canon_rrs_nottl(&res.asks[0].cache_after),
+                }));
+            }
+        };
+        explore(&spec, 1, 10_000, &mut stats, &mut visit);
+        acc.count("executions", stats.executions);
+        acc.count("exchanges", stats.exchanges + stats.choice_points);
+    }
+}
+
+// ---------------------------------------------------------------------------
+// (c) header variants
+// ---------------------------------------------------------------------------
+
+const MANGLES: [Mangle; 13] = [
+    Mangle::WrongId,
+    Mangle::Qr0,
+    Mangle::Opcode,
+    Mangle::Tc,
+    Mangle::Rcode(1),
+    Mangle::Rcode(2),
+    Mangle::Rcode(4),
+    Mangle::Rcode(5),
+    Mangle::Rcode(15),
+    Mangle::AlterQuestion,
+    Mangle::QuestionType,
+    Mangle::NoQuestion,
+    Mangle::TwoQuestions,
+];
+
+fn run_header_variants(acc: &mut JsonAcc, qi: usize) {
+    let menu = menu();
+    let (_p, u) = universe();
+    let q = question(&qname(), QTYPES[qi]);
+    // poisonous but otherwise acceptable payloads
+    let payloads: Vec<Vec<(usize, u8)>> = vec![
+        vec![(0, 0)],
+        vec![(1, 0), (2, 0)],
+        vec![(7, 1), (13, 2)],
+        vec![(0, 0), (7, 1), (13, 2), (14, 2)],
+    ];
+    for placed in &payloads {
+        let reply = build_reply(&q, placed, &menu);
+        let mut faults = vec![Fault::Honest, Fault::IoError];
+        for g in MANGLES {
+            faults.push(Fault::SubstituteMangled(Box::new(reply.clone()), g));
+        }
+        let mut spec = base_spec(u.clone(), vec![Step::Ask(q.clone())]);
+        spec.faults = faults.clone();
+        spec.fault_window = 8;
+        spec.explore_orders = false;
+        // observations keyed by the position of the single fault
+        let mut by_pos: std::collections::BTreeMap<usize, Vec<(usize, String, Vec<usize>)>> = Default::default();
+        let mut stats = ExploreStats::default();
+        let mut visit = |res: &RunResult, choices: &[usize]| {
+            let pos = res.points.iter().position(|p| p.kind == PointKind::Fault && p.taken != 0);
+            if let Some(pos) = pos {
+                // only faults on UDP exchanges are compared (a TCP retry follows)
+                let fault_idx = res.points[pos].taken;
+                let obs = format!(
+                    "{}|{:?}",
+                    show_outcome(&res.asks[0].outcome),
+                    canon_rrs_nottl(&res.asks[0].cache_after)
+                );
+                by_pos.entry(pos).or_default().push((fault_idx, obs, choices.to_vec()));
+            }
+        };
+        explore(&spec, 1, 10_000, &mut stats, &mut visit);
+        acc.count("executions", stats.executions);
+        acc.count("exchanges", stats.exchanges + stats.choice_points);
+        for (pos, obs) in by_pos {
+            let base = obs.iter().find(|(f, _, _)| *f == 1).map(|(_, o, _)| o.clone());
+            if let Some(base) = base {
+                for (f, o, choices) in &obs {
+                    if *f >= 2 {
+                        acc.count("nontrivial", 1);
+                        acc.hist("header variant runs compared with the dropped-exchange run", 1);
+                        if *o != base {
+                            acc.violate(
+                                "mismatched-reply-not-discarded",
+                                format!(
+                                    "question {} {}: reply {:?} with header defect {} at exchange point {} changed the outcome/cache: {} instead of {}",
+                                    show_name(&q.name),
+                                    q.qtype,
+                                    show_placed(placed, &menu),
+                                    show_fault(&faults[*f]),
+                                    pos,
+                                    o,
+                                    base
+                                ),
+                                json!({"kind": "header", "qtype": u16::from(q.qtype), "placed": placed_json(placed), "choices": choices}),
+                                None,
+                            );
+                        }
+                    }
+                }
+            }
+        }
+    }
+}
+
+// ---------------------------------------------------------------------------
+
+#[derive(Clone, Debug)]
+enum Item {
+    Direct { qi: usize, mc: usize, first: Option<usize> },
+    Resolve { qi: usize, first: Option<usize> },
+    Header { qi: usize },
+}
+
+fn items(tier: Tier) -> Vec<Item> {
+    let n = menu().len();
+    let mut v = Vec::new();
+    for qi in 0..QTYPES.len() {
+        for mc in 1..=4 {
+            v.push(Item::Direct { qi, mc, first: None });
+            for f in 0..n {
+                v.push(Item::Direct { qi, mc, first: Some(f) });
+            }
+        }
+    }
+    let resolve_qtypes: Vec<usize> = tier.pick(vec![0, 2, 5], vec![0, 1, 2, 3, 4, 5]);
+    for qi in resolve_qtypes {
+        v.push(Item::Resolve { qi, first: None });
+        for f in 0..n {
+            v.push(Item::Resolve { qi, first: Some(f) });
+        }
+        v.push(Item::Header { qi });
+    }
+    v
+}
+
+fn run_item(tier: Tier, it: &[Item], i: usize, acc: &mut JsonAcc) {
+    match &it[i] {
+        Item::Direct { qi, mc, first } => run_direct(acc, *qi, *mc, *first, tier.pick(3, 4)),
+        Item::Resolve { qi, first } => run_resolve(acc, *qi, *first, tier.pick(2, 3)),
+        Item::Header { qi } => run_header_variants(acc, *qi),
+    }
+}
+
+pub fn run(ctx: &Ctx) -> i32 {
+    let it = items(ctx.tier);
+    let (acc, crashes) = procpar::parent(ctx, it.len(), ctx.tier.pick(40.0, 570.0), &[]);
+    let mut report = Report::new();
+    let c = |k: &str| acc.counters.get(k).copied().unwrap_or(0);
+    report.evaluations = c("direct_calls") + c("executions");
+    report.transitions = c("direct_calls") + c("exchanges");
+    report.traces_validated = report.evaluations;
+    report.distinct_nontrivial = c("nontrivial");
+    procpar::into_report(acc, crashes, &mut report);
+    let menu = menu();
+    report.rule = "(a) every reply made of <= k records of the adversarial menu, each in any of the three sections, x 6 question types x 4 delegation depths, passed to the real validate_nameserver_response; (b) every such reply (<= k-1 records) substituted for the reply of every upstream exchange position (deviation bound 1) of a full dns_resolver::resolve in a 2-level universe, all candidate orders, then answer and cache inspected; (c) 13 header defects x 4 poisonous payloads x every exchange position, outcome and cache compared with the run in which that exchange was dropped; non-trivial = accepted replies with >= 2 records (a), runs in which a substituted reply was delivered (b), compared header-variant runs (c)".into();
+    report.bounds = json!({
+        "menu": menu.iter().map(|(n, r)| format!("{n}: {}", show_rr(r))).collect::<Vec<_>>(),
+        "k_direct": ctx.tier.pick(3, 4),
+        "k_resolve": ctx.tier.pick(2, 3),
+        "question": show_name(&qname()),
+    });
+    report.assumptions = vec![
+        "allowed set per reply: type-matching records at the end of the alias walk through the answer section (any name on the walk for CNAME/ANY questions), the CNAMEs on the walk, NS owned by an ancestor-or-self of the question name deeper than the delegation in use, A/AAAA for hosts those NS name; as returned SOA only: an SOA owned by an ancestor not shallower than the delegation in an answer-less reply".into(),
+        "sections are not distinguished (the statement does not)".into(),
+    ];
+    finish(ctx, report)
+}
+
+fn replay_inner(ctx: &Ctx, v: &Value) -> i32 {
+    let menu = menu();
+    let q = question(&qname(), QueryType::from(v["qtype"].as_u64().unwrap_or(1) as u16));
+    let placed = placed_from_json(&v["placed"]);
+    let reply = build_reply(&q, &placed, &menu);
+    println!("question {} {}", show_name(&q.name), q.qtype);
+    println!("reply: {:?}", show_placed(&placed, &menu));
+    let mut findings: Vec<(&'static str, String)> = Vec::new();
+    match v["kind"].as_str().unwrap_or("") {
+        "direct" => {
+            let mc = v["match_count"].as_u64().unwrap_or(1) as usize;
+            let got = verif_validate_nameserver_response(&q, &reply, mc);
+            println!("delegation depth {mc}; validated: {got:?}");
+            findings = judge_validated(&q, &reply, mc, &got);
+        }
+        "resolve" => {
+            let (_p, u) = universe();
+            let mut spec = base_spec(u.clone(), vec![Step::Ask(q.clone())]);
+            spec.faults = vec![Fault::Honest, Fault::Substitute(Box::new(reply))];
+            spec.fault_window = 8;
+            let choices: Vec<usize> = v["choices"].as_array().cloned().unwrap_or_default().iter().filter_map(|c| c.as_u64().map(|c| c as usize)).collect();
+            let res = run_once(&spec, &choices);
+            println!("exchanges: {}", show_log(&res.log));
+            println!("outcome: {}", show_outcome(&res.asks[0].outcome));
+            println!("cache: {:?}", canon_rrs_nottl(&res.asks[0].cache_after));
+            findings = judge_run(&u, &res);
+        }
+        "header" => {
+            let (_p, u) = universe();
+            let mut faults = vec![Fault::Honest, Fault::IoError];
+            for g in MANGLES {
+                faults.push(Fault::SubstituteMangled(Box::new(reply.clone()), g));
+            }
+            let mut spec = base_spec(u.clone(), vec![Step::Ask(q.clone())]);
+            spec.faults = faults.clone();
+            spec.fault_window = 8;
+            spec.explore_orders = false;
+            let choices: Vec<usize> = v["choices"].as_array().cloned().unwrap_or_default().iter().filter_map(|c| c.as_u64().map(|c| c as usize)).collect();
+            let res = run_once(&spec, &choices);
+            let mut base_choices = choices.clone();
+            if let Some(last) = base_choices.last_mut() {
+                *last = 1;
+            }
+            let base = run_once(&spec, &base_choices);
+            let o1 = format!("{}|{:?}", show_outcome(&res.asks[0].outcome), canon_rrs_nottl(&res.asks[0].cache_after));
+            let o2 = format!("{}|{:?}", show_outcome(&base.asks[0].outcome), canon_rrs_nottl(&base.asks[0].cache_after));
+            println!("with the defective reply: {o1}\nwith the exchange dropped: {o2}");
+            if o1 != o2 {
+                findings.push(("mismatched-reply-not-discarded", "outcome differs".into()));
+            }
+        }
+        _ => return 2,
+    }
+    for (c, m) in &findings {
+        println!("  finding [{c}]: {m}");
+    }
+    if findings.is_empty() {
+        println!("replay: property holds on this case");
+        0
+    } else {
+        println!("VIOLATION property={} replay=(replayed case)", ctx.id);
+        1
+    }
+}
+
+pub fn replay(ctx: &Ctx, v: &Value) -> i32 {
+    procpar::replay_in_child(ctx, v)
+}
+
+pub fn worker(args: &[String]) -> i32 {
+    if let Some(v) = procpar::replay_arg(args) {
+        let ctx = Ctx {
+            id: "C06",
+            tier: Tier::Quick,
+            seed: 0,
+            start: std::time::Instant::now(),
+            threads: 1,
+        };
+        return replay_inner(&ctx, &v);
+    }
+    let tier = if args.first().map(String::as_str) == Some("thorough") {
+        Tier::Thorough
+    } else {
+        Tier::Quick
+    };
+    let it = items(tier);
+    procpar::child_main(args, move |tier, i, acc| run_item(tier, &it, i, acc))
 }
